@@ -33,7 +33,11 @@ class Env:
 def ev(t, env):
     """returns (value, magnitude); notes in env when an intermediate value leaves the representable range"""
     v, m = ev0(t, env)
-    if isinstance(v, float) and (abs(v) > env.hi or (v != 0 and abs(v) < env.lo) or v != v):
+    if isinstance(v, float) and (abs(v) > env.hi or v != v):
+        env.out_of_range = True
+    elif isinstance(v, float) and v != 0 and abs(v) < env.lo and t["t"] not in ("c", "hx", "y"):
+        # a COMPUTED intermediate in the subnormal range has lost precision; an operand that merely IS a subnormal
+        # number (a constant of the program or an observed operand value) is exact
         env.out_of_range = True
     return v, m
 
@@ -164,5 +168,33 @@ def judge(stdout_lines, events_by_key, f32=False):
                     bad.setdefault(cur, "real-value")
                 else:
                     stats["real_worst_ulps"] = max(stats["real_worst_ulps"], err / (eps * max(m, abs(e), 1e-300)))
+    # softmax rows (C07: "every last-dimension row is non-negative and sums to one"): decided from the recorded input
+    # and output alone, also where the exponentials are subnormal and the term-based comparison above does not judge.
+    # In domain = every exp(x) of the row is a positive number of the format and their sum is finite (with margins).
+    xlo, shi = (-100.0, 1e37) if f32 else (-740.0, 1e307)
+    known = {}
+    for (c, i) in sorted(events_by_key):
+        e = events_by_key[(c, i)]
+        if e.get("op") == "reset":
+            known = {}
+        vals = e.get("new", {}).get("hx") if isinstance(e.get("new"), dict) else None
+        if e.get("op") == "softmax" and not e.get("panic") and vals is not None and e["args"][0] in known and (c, i) not in bad:
+            xs = known[e["args"][0]]
+            ys = [unhex(h) for h in vals]
+            n = e["new"]["d"][-1]
+            if len(xs) == len(ys):
+                for r in range(len(ys) // n):
+                    xr, yr = xs[r * n:(r + 1) * n], ys[r * n:(r + 1) * n]
+                    try:
+                        tot = sum(math.exp(x) for x in xr)
+                    except OverflowError:
+                        continue
+                    if any(math.isnan(x) or math.isinf(x) or x < xlo for x in xr) or not tot < shi:
+                        continue
+                    stats["real_checked"] += 1
+                    if any(math.isnan(y) or math.isinf(y) or y < 0 for y in yr) or abs(sum(yr) - 1.0) > 8 * n * eps:
+                        bad.setdefault((c, i), "real-value")
+        if "res" in e and vals is not None:
+            known[e["res"]] = [unhex(h) for h in vals]
     mism = [{"case": c, "i": i, "op": events_by_key[(c, i)]["op"], "why": why} for (c, i), why in sorted(bad.items())]
     return mism, stats
